@@ -46,20 +46,55 @@ def run_shard(binpath, mode, seed, tier, n, outdir, replay=None, toggles_sets=()
             "report": json.load(open(os.path.join(outdir, "report.json")))}
 
 
+def run_model_on_case(case_lines, args):
+    """runs drv_engine on one case (list of op lines) with extra args; returns stripped output lines"""
+    p = subprocess.run([vlib.driver_path("drv_engine"), *args], input="\n".join(case_lines) + "\n",
+                       stdout=subprocess.PIPE, stderr=subprocess.PIPE, text=True, timeout=120)
+    return [strip(l) for l in p.stdout.split("\n")[:len(case_lines)]]
+
+
+def tapes(budget=240):
+    """order tapes for the model's choice points (Lehmer indices), shortest first"""
+    import itertools
+    out = [()]
+    for n in (1, 2, 3):
+        out += list(itertools.product(range(6), repeat=n))
+    return out[:budget]
+
+
+def find_order(case_lines, impl_lines, idx0, values_only, extra=()):
+    """searches an order of the as-is model that reproduces the implementation's lines of this case"""
+    for t in tapes():
+        args = list(extra) + (["tape=" + ",".join(map(str, t))] if t else [])
+        out = run_model_on_case(case_lines, args)
+        if len(out) < len(case_lines): continue
+        if all((vals(out[i]) == vals(impl_lines[i])) if values_only else (out[i] == impl_lines[i]) for i in idx0):
+            return t
+    return None
+
+
 def analyse(sh, single_toggles):
-    """Per-case classification. Returns dict with lists of case records."""
+    """Per-case classification (DESIGN §2.4, §10.2).
+
+    tie:         a case without order choice points must agree line by line (values and executor
+                 invocations) with the as-is model; a case with choice points must agree with SOME
+                 order of the as-is model (ascending, descending, or an order found by the tape
+                 search); if none reproduces it the case is judged by the oracle only.
+    attribution: an oracle failure of the implementation is attributed to the known engine findings
+                 only if some order of the AS-IS model reproduces exactly the values the
+                 implementation returned (the formal model of the known behaviour predicts this
+                 failure); the finding's name comes from which toggle repairs that run.
+    """
     ops, impl, exp, models = sh["ops"], sh["impl"], sh["expect"], sh["models"]
     raw = models["asis"]
     asis = [strip(l) for l in raw]
     desc = [strip(l) for l in models["desc"]]
     for k in list(models):
         if k not in ("core",): models[k] = [strip(l) for l in models[k]]
-    allname = " ".join(ALL_TOGGLES)
-    rep_all = models.get(allname)
     res = {"cases": 0, "lines": 0, "impl_fail_cases": [], "disagree": [], "excused_disagree": 0,
            "core_lines": 0, "core_cases": 0, "core_disagree": [], "attributed": {}, "unexplained": [],
            "exec_disagree": [], "model_asis_unsound_cases": 0, "order_sensitive_cases": 0,
-           "order_matched_desc": 0, "order_unresolved": 0}
+           "order_matched_desc": 0, "order_matched_tape": 0, "order_unresolved": 0, "order_values_only": 0}
     for (a, b) in split_cases(ops):
         if b - a <= 1: continue
         res["cases"] += 1
@@ -67,44 +102,47 @@ def analyse(sh, single_toggles):
         res["lines"] += len(idx)
         impl_ok = all(vals(impl[i]) == exp[i] for i in idx)
         model_ok = all(vals(asis[i]) == exp[i] for i in idx)
-        rep_ok = rep_all is not None and all(vals(rep_all[i]) == exp[i] for i in idx)
-        text = "\n".join(ops[a:b])
+        case_lines = ops[a:b]
+        text = "\n".join(case_lines)
+        idx0 = [i - a for i in idx]
+        impl_case = impl[a:b]
         if not model_ok: res["model_asis_unsound_cases"] += 1
+        dis = [i for i in idx if impl[i] != asis[i]]
+        order_sensitive = any(raw[i].endswith(" ~") for i in idx) or any(desc[i] != asis[i] for i in idx)
+        if order_sensitive: res["order_sensitive_cases"] += 1
+        reproduced_values = not any(vals(impl[i]) != vals(asis[i]) for i in idx)   # as-is (ascending) predicts impl's values
+        label_args = []
+        if dis:
+            i = dis[0]
+            rec = {"case": text, "op": ops[i], "impl": impl[i], "model": asis[i]}
+            if not order_sensitive:
+                if all(vals(impl[j]) == vals(asis[j]) for j in dis): res["exec_disagree"].append(rec)
+                else: res["disagree"].append(rec)
+            elif all(impl[j] == desc[j] for j in idx):
+                res["order_matched_desc"] += 1; reproduced_values = True; label_args = ["desc"]
+            else:
+                t = find_order(case_lines, impl_case, idx0, values_only=False)
+                if t is not None:
+                    res["order_matched_tape"] += 1; reproduced_values = True; label_args = ["tape=" + ",".join(map(str, t))]
+                else:
+                    t = find_order(case_lines, impl_case, idx0, values_only=True)
+                    if t is not None:
+                        res["order_values_only"] += 1; reproduced_values = True; label_args = ["tape=" + ",".join(map(str, t))]
+                    else:
+                        # no order of the model reproduces the implementation: judged by the oracle only
+                        res["order_unresolved"] += 1
         if not impl_ok:
             bad = next(i for i in idx if vals(impl[i]) != exp[i])
             rec = {"case": text, "line": ops[bad], "impl": impl[bad], "expected": exp[bad]}
             res["impl_fail_cases"].append(rec)
-            # attribution (DESIGN §2.4): (a) the as-is model — the formal description of the known
-            # behaviour, walked in ascending or descending set order — predicts exactly this failure, or
-            # (b) the model with a known finding's toggle switched to "repaired" meets the oracle here.
             who = None
-            for t in single_toggles:
-                m = models.get(t)
-                if m is not None and all(vals(m[i]) == exp[i] for i in idx): who = t; break
-            if who is None and rep_ok: who = "+".join(single_toggles)
-            if who is None and (all(vals(impl[i]) == vals(asis[i]) for i in idx) or all(vals(impl[i]) == vals(desc[i]) for i in idx)):
+            if reproduced_values:
                 who = "model"
+                for t in single_toggles:
+                    out = run_model_on_case(case_lines, label_args + [t]) if label_args else [strip(l) for l in models[t][a:b]]
+                    if len(out) >= len(case_lines) and all(vals(out[i]) == exp[a + i] for i in idx0): who = t; break
             if who is None: res["unexplained"].append(rec)
             else: res["attributed"].setdefault(who, []).append(rec)
-        # tie: as-is model vs implementation
-        dis = [i for i in idx if impl[i] != asis[i]]
-        order_sensitive = any(raw[i].endswith(" ~") for i in idx) or any(models["desc"][i] != asis[i] for i in idx)
-        if order_sensitive: res["order_sensitive_cases"] += 1
-        if dis:
-            i = dis[0]
-            rec = {"case": text, "op": ops[i], "impl": impl[i], "model": asis[i]}
-            if order_sensitive and all(impl[j] == desc[j] for j in idx):
-                res["order_matched_desc"] += 1
-            elif order_sensitive:
-                # the code walked a >=2-element firewall/projection set in hash order; the model cannot
-                # reproduce that order: judged by the oracle only
-                res["order_unresolved"] += 1
-            elif rep_ok and (not impl_ok or not model_ok):
-                res["excused_disagree"] += 1     # known finding manifests on one side only (hash-set order)
-            elif all(vals(impl[j]) == vals(asis[j]) for j in dis):
-                res["exec_disagree"].append(rec)
-            else:
-                res["disagree"].append(rec)
         # core model
         core = models.get("core")
         if core is not None:
